@@ -19,7 +19,7 @@ Machine = hgm.FcnMachine
 PROP = {
     "id": "C03",
     "quick_n": 300,
-    "thorough_n": 5000,
+    "thorough_n": 3000,
     "rule": "one program = tree spec with at least one quantity-bearing node (every primitive in "
             "every child / flow position), two instances a (vectorised) and b (row by row), 1-3 "
             "successive batches of 0-10 rows over the critical-value alphabet of the tree (edges, "
